@@ -83,7 +83,9 @@ class DynamicNode(Node):
             )
         elif isinstance(other.type, TVocabulary):
             if self.type == TScalar:
-                tr = other.evaluate().v
+                # dynamic scalar scaling a fixed pointer: the result is a pointer
+                tr = np.atleast_2d(other.evaluate().v).T
+                return Transformed(self, tr, other.type)
             else:
                 tr = other.evaluate().get_binding_matrix(swap_inputs=swap_inputs)
         else:
